@@ -102,6 +102,7 @@ def run(ctx):
     r1_key_domain(ctx)
     r2_alignment(ctx)
     r3_none_normalisation(ctx)
+    r4_cardinality(ctx)
 
 
 def r1_key_domain(ctx):
@@ -244,7 +245,54 @@ def r3_none_normalisation(ctx):
     ctx.ob("C20.R3", ENC, "InteractionsEncoder.encode", tru[0] if tru else fn, "no namespace value is defaulted by truthiness (`x or []`)", not tru, stmt="no truthiness default")
 
 
+def r4_cardinality(ctx):
+    """`each unordered combination of features once`: the number of degree-k monomials over n features is C(n+k-1, k).
+    _pows is interpreted in the cardinality domain (feature values abstracted to opaque elements, list lengths / slice offsets /
+    the integer offset table tracked exactly, the degree loop unrolled) for every n <= 8, degree <= 6, numeric and string features."""
+    from math import comb
+    from ..cardinality import CardEval, Elems, Opaque, Unmodelled, length
+    ctx.rule("C20.R4", "cardinality abstract interpretation of InteractionsEncoder._pows: for n = 0..8 features and degree 0..6 the k-th power table "
+                       "has exactly C(n+k-1, k) entries (each unordered combination once), in the numeric and in the string arm")
+    fn = ctx.fn(ENC, "InteractionsEncoder._pows")
+    params = [a.arg for a in fn.args.args]
+    bad, unm, n_cfg = [], None, 0
+    for is_str in (False, True):
+        for n in range(0, 9):
+            for d in range(0, 7):
+                n_cfg += 1
+                env = {params[0]: Opaque(), params[1]: Elems(n, is_str), params[2]: d}
+                try:
+                    terms = CardEval(env).run(fn.body)
+                except Unmodelled as e:
+                    unm = str(e)
+                    break
+                if n == 0:
+                    if length(terms) != 0:
+                        bad.append({"string_features": is_str, "n": n, "degree": d, "problem": "non-empty result for no values"})
+                    continue
+                got = [length(t) for t in terms]
+                exp = [comb(n + k - 1, k) for k in range(d + 1)]
+                if got != exp:
+                    bad.append({"string_features": is_str, "n": n, "degree": d, "table sizes": got, "C(n+k-1,k)": exp})
+            if unm:
+                break
+        if unm:
+            break
+    if unm:
+        ctx.ob("C20.R4", ENC, "InteractionsEncoder._pows", fn, "the power table can be followed in the cardinality domain", None, detail={"unmodelled": unm}, stmt="_pows cardinality")
+    else:
+        ctx.ob("C20.R4", ENC, "InteractionsEncoder._pows", fn, "the k-th power table holds C(n+k-1, k) monomials for all n <= 8, degree <= 6", not bad,
+               detail={"configurations": n_cfg, "first_mismatches": bad[:3]}, stmt="_pows cardinality")
+    ctx.note(f"C20.R4 interpreted _pows in the cardinality domain for {n_cfg} (n, degree, kind) configurations")
+    # _cross: the crossed term has the product of the factor sizes (full outer product)
+    cr = ctx.fn(ENC, "InteractionsEncoder._cross")
+    comps = [c for c in ast.walk(cr) if isinstance(c, ast.ListComp) and isinstance(c.elt, ast.BinOp)]
+    ok = bool(comps) and all(len(c.generators) == 2 and not any(g.ifs for g in c.generators) for c in comps)
+    ctx.ob("C20.R4", ENC, "InteractionsEncoder._cross", comps[0] if comps else cr, "namespaces are crossed as a full outer product (two unfiltered generators per step)", ok, stmt="_cross outer product")
+
+
 CONTROLS = [
+    ("offset table of the published version", ENC, M.replace_expr("InteractionsEncoder._pows", "list(accumulate([1] + [n_prev - s + 1 for s in starts[:-1]]))", "list(accumulate(starts[:1] + starts[-1:] + starts[1:-1]))"), "C20.R4"),
     ("falsy scalar treated as missing", ENC, M.replace_expr("InteractionsEncoder.encode", "v if v is not None else []", "v or []"), "C20.R3"),
     ("absent namespace not completed", ENC, M.replace_stmt("InteractionsEncoder.encode", lambda st: isinstance(st, ast.For) and "setdefault" in ast.unparse(st), "pass"), "C20.R1"),
     ("string arm of _pows iterates differently", ENC, M.replace_expr("InteractionsEncoder._pows", "[v + t for v, s in zip(values, starts) for t in terms[d][s - 1:]]",
